@@ -3,6 +3,7 @@
 # run our check against it, and file it under /verif/seeded/<name>/
 pid=$1; name=${2:-$pid}; src=/tmp/seedwork/$name
 [ -d "$src" ] || src=/tmp/seedwork/$pid
+[ -d "$src" ] || { mkdir -p /tmp/seedwork/$name; cp /verif/seeded/$name/patch.diff /verif/seeded/$name/demo.py /tmp/seedwork/$name/ 2>/dev/null; src=/tmp/seedwork/$name; }
 W=/tmp/sc-$name-$$
 git -C /repo worktree add -q $W HEAD || exit 3
 cd $W
